@@ -354,7 +354,7 @@ def prog_C14(ctx):
         ctx.cov['evaluations'] = ev + sd['Schedules']
         ctx.cov['distinct_nontrivial'] = ctx.cov.get('distinct_nontrivial', 0) + len(sd.get('OutcomeHist') or {})
         ctx.cov['exhaustive'] = bool(sd.get('Exhaustive'))
-        ctx.cov['rule'] = ctx.cov.get('rule', '') + '; scheddiff: three (request, message) pairs: ProcessOperation || poll(new proposal), ApproveParticipation || poll(new invitation), ResetFSMState || poll; per pair all single pre-emptions and a sample of double/triple ones (60 plans quick, 1500 thorough = exhaustive within 3 pre-emptions when the pair has few steps)'
+        ctx.cov['rule'] = ctx.cov.get('rule', '') + '; scheddiff: thirteen (request, message) pairs (see the manifest text); per pair every single pre-emption and a sample of the double/triple ones (60 plans quick, 600 thorough - exhaustive within 3 pre-emptions when the pair has few steps)'
 
 
 AIR_TRUSTED = ['airdiff: real ceremonies; a machine with the mnemonic of a participant is fed the operations of that participant and is stopped (database closed), reopened from its database and rebuilt with ReplayOperationsLog at every restart point: before each operation, after the handler ran but before logging, after logging with the result file lost, and after every single step; every later result (compared up to the encodings that depend on Go map iteration order and ECIES randomness: deals by addressee, responses by verdict) and the final keyring must be those of a machine that never stopped',
